@@ -726,7 +726,7 @@ class Builder:
                     nc[c] = k1 if k1 == k2 else ("f" if {k1, k2} <= set(NUM) else "o")
                 else:
                     k = c1.get(c, c2.get(c))
-                    nc[c] = {"i": "f", "f": "f", "s": "s"}.get(k, "o")
+                    nc[c] = {"i": "f", "f": "f"}.get(k, "o")   # NaN-filled str/bool columns are not used further (groupby NaN keys: C38)
             return self.add(["concat0", b1, b2], self.fmeta(i, cols=nc, lin=self.newlin(), ord=self.meta[b1]["ord"] and self.meta[b2]["ord"],
                                                            uniq=set()))
         if kind == "concat1":
